@@ -7,6 +7,7 @@ IDS="$@"; [ -z "$IDS" ] && IDS=$(ls seeded | grep -v REGRESSION)
 scripts/seedlab.sh init >/dev/null 2>&1
 for id in $IDS; do
   m=seeded/$id/meta.json; [ -f $m ] || continue
+  if python3 -c "import json,sys;sys.exit(0 if json.load(open('$m')).get('not_judged') else 1)"; then echo "$id: NOT-JUDGED (the change stays within the property as the check reads it; see meta.json)"; continue; fi
   checks=$(python3 -c "import json;m=json.load(open('$m'));print(' '.join(m['checks_run']['caught_by']))")
   tier=$(python3 -c "import json;m=json.load(open('$m'));print(m['checks_run'].get('tier','quick'))")
   out=$(VERIF_CL_SUITES=CL1024,CL2048 scripts/seedlab.sh run $PWD/seeded/$id/patch.diff $tier $checks 2>&1)
